@@ -157,6 +157,14 @@ theorem plan_succeeds {p N C : Nat} {op : Op} (hop : opOk v N op = true) : ∃ p
     simp only [opOk, Bool.and_eq_true] at hop
     simp only [plan, hop.1, if_true]
     exact planGate_succeeds hop.2
+  | measNS targets =>
+    match targets, hop with
+    | [], hop => simp [opOk] at hop
+    | _ :: _ :: _, hop => simp [opOk] at hop
+    | [t0], hop =>
+      simp only [opOk, Bool.and_eq_true, decide_eq_true_eq] at hop
+      rw [plan_measNS_single hop.1]
+      exact planGate_succeeds (gateOk_single hop.2)
 
 theorem step_succeeds {sty : Style} {N C : Nat} {st : St} {op : Op} (hop : opOk v N op = true) (hN : 1 ≤ N) :
     ∃ st', step v sty N C st op = .ok st' := by
